@@ -20,6 +20,7 @@ THEORIES = str(C.THEORIES)
 
 HOSTILE_PLAIN = ['X\n', 'a b', 'é', 'lag', 'future', 'node_1', 'meta', 'he said "hi"', "it's", 'nodes', 'a\\b',
                  'x lag(n=1)', 'x future(n=2)', 'y lag(n=2)', 'x', 'y', 'bad lag(n=1) lag(n=2)']
+CASEFOLD_PLAIN = ['X', 'x', 'ss', '\u00df', 'a', 'A', 'b', 'B']
 GMETAS = [None, {}, {'gm': 1}, {'z': [1, {'y': None, 'a': 's'}], 'b': False}]
 
 
@@ -139,6 +140,19 @@ def build_graph(rng, kind, flavour):
         gen.pool = pool[:6]
         gen.lags = [-2, -1, 0, 1, 2]
         gen.vars = ['x', 'y']
+    elif kind == 'Plain' and flavour == 'casefold':
+        # identifiers that differ only by case / case folding ('ss' and the sharp s fold to the same string)
+        pool = list(CASEFOLD_PLAIN)
+        rng.shuffle(pool)
+        gen.pool = pool[:6]
+        gen.lags = [-2, -1, 0, 1, 2]
+        gen.vars = ['x', 'y']
+    elif kind == 'TS' and flavour == 'casefold':
+        gen.vars = rng.choice([['X', 'x', 'y'], ['ss', '\u00df', 'S'], ['a', 'A', 'b']])
+        gen.lags = [-1, 0, 1]
+        allp = [GH.ts_name(v, l) for v in gen.vars for l in gen.lags]
+        rng.shuffle(allp)
+        gen.pool = allp[:6]
     elif kind == 'TS' and flavour == 'hostile':
         vs = ['he said "hi"', 'v\n', 'lag', 'future', 'a b', "it's", 'meta']
         rng.shuffle(vs)
@@ -160,6 +174,12 @@ def build_graph(rng, kind, flavour):
             GH.warm_caches(g, rng, 0.3)          # derived views (skeleton included) looked at BETWEEN the mutations
         GH.apply_op(g, op)
         ops.append(op)
+    if flavour == 'casefold':
+        # denser graphs: several sources that fold to the same string, each with several edges
+        for _ in range(rng.choice([4, 8, 10])):
+            op = ('add_edge', gen.endpoint(False), gen.endpoint(False), gen.ety(), gen.meta(), True, 'ids')
+            GH.apply_op(g, op)
+            ops.append(op)
     if g.get_node_names() and rng.random() < 0.35:
         # a derived view is looked at, then a node attribute is edited in place through its handle: the last word before serialising
         GH.warm_caches(g, rng, 0.5)
@@ -271,7 +291,7 @@ def mutate(rng, d, gen):
 
 def make_case(rng, idx):
     kind = rng.choice(['Plain', 'TS'])
-    flavour = rng.choice(['default', 'hostile', 'tsnames'] if kind == 'Plain' else ['default', 'default', 'hostile'])
+    flavour = rng.choice(['default', 'hostile', 'tsnames', 'casefold'] if kind == 'Plain' else ['default', 'default', 'hostile', 'casefold'])
     g, ops, gen, gm = build_graph(rng, kind, flavour)
     cls = CausalGraph if kind == 'Plain' else TimeSeriesCausalGraph
     pool, lags, vars_ = gen.pool, gen.lags, gen.vars
